@@ -19,6 +19,8 @@ pub struct Connection {
     pub addr: String,
     socket: Option<TcpStream>,
     buffer: BytesMut,
+    #[cfg(feature = "verif")]
+    verif_stream: Option<tokio::io::DuplexStream>,
 }
 
 impl Connection {
@@ -27,6 +29,8 @@ impl Connection {
             addr,
             socket: None,
             buffer: BytesMut::with_capacity(MAX_FRAME_SIZE),
+            #[cfg(feature = "verif")]
+            verif_stream: None,
         }
     }
 
@@ -57,6 +61,12 @@ impl Connection {
         &mut self,
         msg: &T,
     ) -> Result<(), Box<dyn std::error::Error>> {
+        #[cfg(feature = "verif")]
+        if let Some(stream) = self.verif_stream.as_mut() {
+            stream.write_all(msg.data().as_slice()).await?;
+            return Ok(());
+        }
+
         if let Some(socket) = self.socket.as_mut() {
             socket.write_all(msg.data().as_slice()).await?;
         }
@@ -68,6 +78,22 @@ impl Connection {
         loop {
             if let Some(frame) = self.parse_frame()? {
                 return Ok(Some(frame));
+            }
+
+            #[cfg(feature = "verif")]
+            if let Some(stream) = self.verif_stream.as_mut() {
+                let n = match stream.read_buf(&mut self.buffer).await {
+                    Err(_) => return Err(Error::CantReadFromSocket),
+                    Ok(n) => n,
+                };
+
+                if n == 0 {
+                    return match self.buffer.is_empty() {
+                        true => Ok(None),
+                        false => Err(Error::ConnectionReset),
+                    };
+                }
+                continue;
             }
 
             match self.socket.as_mut() {
@@ -113,5 +139,29 @@ impl Connection {
             Err(Error::Incomplete(_)) => Ok(None),
             Err(e) => Err(e.into()),
         }
+    }
+}
+
+#[cfg(feature = "verif")]
+impl Connection {
+    /// Use an in-memory stream instead of a TCP socket (verification harness only).
+    pub fn verif_with_stream(&mut self, stream: tokio::io::DuplexStream) -> &mut Self {
+        self.verif_stream = Some(stream);
+        self
+    }
+
+    /// Number of bytes currently retained in the receive buffer.
+    pub fn verif_buffer_len(&self) -> usize {
+        self.buffer.len()
+    }
+
+    /// Append bytes to the receive buffer as if they had been read from the socket.
+    pub fn verif_feed(&mut self, data: &[u8]) {
+        self.buffer.extend_from_slice(data);
+    }
+
+    /// One call of the private `parse_frame`.
+    pub fn verif_parse_frame(&mut self) -> Result<Option<Frame>, Error> {
+        self.parse_frame()
     }
 }
